@@ -38,6 +38,35 @@ def e2e_create(r):
         shutil.rmtree(root, ignore_errors=True)
 
 
+def e2e_convert(r):
+    """a failing document in the OTHER format, `scrut update --convert <fmt>`, then `scrut test` on the converted document"""
+    root = tempfile.mkdtemp(prefix="scrut-verif-gen-", dir=os.environ.get("VERIF_SCRATCH", "/tmp"))
+    try:
+        cmd = "printf '" + "".join("\\%03o" % b for b in r["output_bytes"]) + "'" if r["output_bytes"] else "true"
+        if r["code"] != 0:
+            cmd += f"; (exit {r['code']})"
+        if r["fmt"] == "md":      # written format is Markdown: the source is Cram
+            src, text, dst = "conv.t", f"A Title\n  $ {cmd}\n  OLD-EXPECTATION-LINE\n", "conv.md"
+        else:
+            src, text, dst = "conv.md", f"# A Title\n\n```scrut\n$ {cmd}\nOLD-EXPECTATION-LINE\n```\n", "conv.t"
+        with open(os.path.join(root, src), "w") as f:
+            f.write(text)
+        env = dict(os.environ, TMPDIR=os.path.join(root, "tmp"), NO_COLOR="1")
+        env.pop("SCRUT_VERIF_TRACE", None)
+        os.makedirs(env["TMPDIR"])
+        c = subprocess.run([SCRUT_BIN, "update", "--no-color", "--assume-yes", "--escaping", r["esc"], "--convert", "markdown" if r["fmt"] == "md" else "cram", src],
+                           cwd=root, env=env, stdout=subprocess.PIPE, stderr=subprocess.PIPE, timeout=60)
+        doc = os.path.join(root, dst)
+        if c.returncode != 0 or not os.path.exists(doc):
+            return {"ok": False, "stage": "convert", "detail": (c.stderr.decode("utf-8", "replace") + c.stdout.decode("utf-8", "replace"))[-200:], "document": ""}
+        t = subprocess.run([SCRUT_BIN, "test", "--no-color", "-r", "json", dst], cwd=root, env=env, stdout=subprocess.PIPE, stderr=subprocess.PIPE, timeout=60)
+        return {"ok": t.returncode == 0, "stage": "test-after-convert", "detail": f"exit {t.returncode} " + t.stdout.decode("utf-8", "replace")[:300], "document": open(doc, errors="replace").read()}
+    except subprocess.TimeoutExpired:
+        return {"ok": False, "stage": "timeout", "detail": "", "document": ""}
+    finally:
+        shutil.rmtree(root, ignore_errors=True)
+
+
 WHAT = "a generated test does not parse back to one test with the same command that passes on the output it was generated from"
 
 
@@ -85,6 +114,16 @@ def run(prop, tier, replay=None):
                 r["obs"]["detail"] = f"end to end ({e['stage']}): {e['detail']}"
                 r["obs"]["text"] = e["document"] or r["obs"]["text"]
     cov["end_to_end_create_then_test"] = len(sample)
+    cand = [r for r in records if r["path"] == "convert" and r["obs"]["passes"] and r["obs"]["same_cmd"]]
+    sample = cand if replay else rnd.sample(cand, min(len(cand), 60 if tier == "quick" else 800))
+    with concurrent.futures.ThreadPoolExecutor(max_workers=min(NCPU, 12)) as ex:
+        for r, e in zip(sample, ex.map(e2e_convert, sample)):
+            r["e2e"] = e
+            if not e["ok"]:
+                r["obs"]["passes"] = False
+                r["obs"]["detail"] = f"end to end ({e['stage']}): {e['detail']}"
+                r["obs"]["text"] = e["document"] or r["obs"]["text"]
+    cov["end_to_end_convert_then_test"] = len(sample)
     tcfg = os.path.join(work, "Trace.cfg")
     with open(tcfg, "w") as f:
         f.write(f"SPECIFICATION TraceSpec\nCONSTANTS\n  K = {k}\nINVARIANTS Verdicts\nPOSTCONDITION Accepted\nCHECK_DEADLOCK FALSE\n")
@@ -117,7 +156,7 @@ def run(prop, tier, replay=None):
         culprits = sorted({c for c in r["lines"] if (r["fmt"], c) in single_any})
         if "e2e" in r and not r["e2e"]["ok"]:
             specials = sorted({c for c in r["lines"] if c != "plain"})
-            keys = [f"end-to-end:create-then-test:{r['e2e']['stage']}:fmt={r['fmt']};classes={'+'.join(specials) or 'plain'};{'no-final-eol;' if not r['lastEol'] else ''}esc={r['esc']};code={r['code']}"]
+            keys = [f"end-to-end:{r['path']}:{r['e2e']['stage']}:fmt={r['fmt']};classes={'+'.join(specials) or 'plain'};{'no-final-eol;' if not r['lastEol'] else ''}esc={r['esc']};code={r['code']}"]
         elif culprits:
             keys = [f"fmt={r['fmt']};class={c};{'/'.join(sorted(single_any[(r['fmt'], c)]))}" for c in culprits]
         else:
